@@ -32,7 +32,7 @@ T = 'chainables.tree'
 
 
 def run(ctx: Ctx):
-  for r in (r1, r2, r3, r4):
+  for r in (r1, r2, r3, r4, r5):
     ctx.guard(r)
 
 
@@ -292,10 +292,75 @@ def r4(ctx: Ctx):
   ctx.floor(rule, 3, n + 1)
 
 
+def _seq_nf(e: ast.AST) -> list[str] | None:
+  """Sequence normal form: '*x' = the elements of x, 'x' = the single element x."""
+  if isinstance(e, ast.Name):
+    return ['*' + e.id]
+  if isinstance(e, ast.Tuple) or isinstance(e, ast.List):
+    out = []
+    for x in e.elts:
+      if isinstance(x, ast.Starred):
+        sub = _seq_nf(x.value)
+        if sub is None:
+          return None
+        out += sub
+      else:
+        out.append(unparse(x))
+    return out
+  if isinstance(e, ast.BinOp) and isinstance(e.op, ast.Add):
+    l, r = _seq_nf(e.left), _seq_nf(e.right)
+    return None if l is None or r is None else l + r
+  if isinstance(e, ast.Call) and len(e.args) == 1 and not e.keywords and unparse(e.func) in (
+      'Key', 'tuple', 'cls', 'type(self)', 'self.__class__', 'list'):
+    return _seq_nf(e.args[0])
+  return None
+
+
+def r5(ctx: Ctx):
+  rule = 'R-C18-5'
+  ctx.rule(rule, 'path extension adds exactly one component: every return of'
+           ' Key.at(k) and Key.__getattr__(name) is the receiver\'s components'
+           ' followed by the argument as ONE component (sequence normal form'
+           ' [*self, k]) — a tuple used as a dict key must stay one path'
+           ' component, or iterated paths no longer read back their leaf')
+  ci = ctx.repo.cls(T, 'Key')
+  n = 0
+  for name in ('at', '__getattr__'):
+    fi = ci.methods.get(name)
+    if fi is None:
+      raise AnalysisError(f'{rule}: Key.{name} not found')
+    ps = fi.params()
+    if len(ps) != 2:
+      raise AnalysisError(f'{rule}: Key.{name} has parameters {ps}')
+    want = ['*' + ps[0], ps[1]]
+    for r_ in [x for x in walk_no_nested(fi.node) if isinstance(x, ast.Return)]:
+      n += 1
+      nf = _seq_nf(r_.value) if r_.value is not None else None
+      if nf is None:
+        raise AnalysisError(f'{rule}: cannot normalise `{unparse(r_.value)[:50]}` in Key.{name}')
+      if nf == want:
+        ctx.ok(rule, fi, f'Key.{name} returns {nf}', r_)
+      else:
+        ctx.fail(rule, fi, f'Key.{name}: return [*self, {ps[1]}]',
+                 f'Key.{name} can return the path {nf} instead of {want}: an'
+                 ' argument that is itself a tuple is spliced in as several'
+                 ' components (or the component is lost), so a tuple-valued'
+                 ' dict key yields a path that does not read back its leaf',
+                 node=r_)
+  ctx.floor(rule, 2, n)
+
+
 from mlmverif.selfcheck import B, OK  # noqa: E402
 
 _F = 'chainables/tree.py'
 VARIANTS = [
+    B('key-at-splices-tuples', _F,
+      '  def at(self, key: BaseKey):\n    return Key(self + (key,))',
+      '  def at(self, key: BaseKey):\n    if isinstance(key, tuple):\n      return Key(self + key)\n    return Key(self + (key,))',
+      'R-C18-5'),
+    OK('key-at-star-form', _F,
+       '  def at(self, key: BaseKey):\n    return Key(self + (key,))',
+       '  def at(self, key: BaseKey):\n    return Key((*self, key))'),
     B('tuple-branch-flips-in-place', _F,
       '        container_maker = tuple\n        result = list(tree)',
       '        container_maker = tuple\n        result, in_place = list(tree), True', 'R-C18-1'),
